@@ -2863,7 +2863,669 @@ fn space_scale(ctx: &Ctx, d: &Dom) {
     sp.done(true, &format!("{} cases", cases.len()));
 }
 
+
+//============ Chains: policy x resource choice x depth =======================
+//
+// Feature interactions three levels deep: TA -> CA -> (CA ->) object with
+// every combination of {refuse, trim} x {explicit, inherit, missing} per
+// family per level. Only profile-conforming chains are built (an explicit
+// set always lies within what its issuer effectively holds), so every
+// builder output must pass the library's own validators under its chain, and
+// the resources a validator resolves must be the ones a small model derives
+// (missing -> nothing, inherit -> the issuer's, explicit -> the set).
+
+#[derive(Clone, Copy, Debug, PartialEq, Eq)]
+enum Ch { Explicit, Inherit, Missing }
+
+#[derive(Clone, Debug)]
+struct Level { policy: Overclaim, ch: [Ch; 3] }
+
+impl Level {
+    fn all() -> Vec<Level> {
+        let c = [Ch::Explicit, Ch::Inherit, Ch::Missing];
+        let mut v = vec![];
+        for policy in [Overclaim::Refuse, Overclaim::Trim] { for a in c { for b in c { for e in c {
+            if a == Ch::Missing && b == Ch::Missing && e == Ch::Missing { continue }
+            v.push(Level { policy, ch: [a, b, e] });
+        }}}}
+        v
+    }
+    fn wit(&self) -> String { format!("{:?}[v4={:?} v6={:?} as={:?}]", self.policy, self.ch[0], self.ch[1], self.ch[2]) }
+}
+
+/// atoms an explicit set holds at this depth (nested: 0,1,2 then 0,1 then 0)
+fn explicit_atoms(depth: usize) -> Vec<usize> { match depth { 1 => vec![0, 1, 2], 2 => vec![0, 1], _ => vec![0] } }
+
+/// the model: effective atoms per family below an issuer holding `parent`
+fn effective(parent: &[Vec<usize>; 3], lvl: &Level, depth: usize) -> Option<[Vec<usize>; 3]> {
+    let mut out: [Vec<usize>; 3] = Default::default();
+    for f in 0..3 {
+        out[f] = match lvl.ch[f] {
+            Ch::Missing => vec![],
+            Ch::Inherit => parent[f].clone(),
+            Ch::Explicit => { let e = explicit_atoms(depth); if !e.iter().all(|a| parent[f].contains(a)) { return None } e }
+        };
+    }
+    Some(out)
+}
+
+fn level_resch(lvl: &Level, depth: usize, f: usize) -> ResCh {
+    match lvl.ch[f] { Ch::Missing => ResCh::Missing, Ch::Inherit => ResCh::Inherit, Ch::Explicit => ResCh::Blocks(explicit_atoms(depth)) }
+}
+
+/// what a validator resolved, against the model
+fn check_resolved(r: &mut CaseResult, what: &str, rc: &ResourceCert, eff: &[Vec<usize>; 3]) {
+    for i in 0..4 {
+        let b4 = pki::ip_blocks(32, &[v4_atoms()[i]]).iter().next().unwrap(); let b6 = pki::ip_blocks(128, &[v6_atoms()[i]]).iter().next().unwrap();
+        let got = [rc.v4_resources().contains_block(b4), rc.v6_resources().contains_block(b6), rc.as_resources().contains_asn(Asn::from_u32(as_atoms()[i].0 as u32))];
+        for f in 0..3 { if got[f] != eff[f].contains(&i) {
+            r.fail("validate", format!("{what}: the validator resolved {} resources that {} atom {} but the chain says it should{}: v4={} v6={} as={}", ["IPv4", "IPv6", "AS"][f],
+                if got[f] { "contain" } else { "lack" }, ATOM_NAMES[i], if got[f] { " not" } else { "" }, r_ipblocks(rc.v4_resources(), true), r_ipblocks(rc.v6_resources(), false), r_asblocks_n(rc.as_resources(), false)));
+            return
+        }}
+    }
+}
+
+/// A CA certificate for `lvl` issued by `issuer` (key `issuer_key`).
+fn chain_ca(d: &Dom, lvl: &Level, depth: usize, subject_key: usize, issuer_key: usize, issuer: &ResourceCert) -> Result<Cert, String> {
+    let spec = CertSpec { v4: level_resch(lvl, depth, 0), v6: level_resch(lvl, depth, 1), asn: level_resch(lvl, depth, 2), overclaim: lvl.policy, subject_key, ..CertSpec::base(CKind::Ca) };
+    let mut t = spec.build(d);
+    t.set_authority_key_identifier(Some(issuer.subject_key_identifier()));
+    t.set_issuer(issuer.subject().clone());
+    t.into_cert(&d.signer, &Kid(issuer_key)).map_err(|e| e.to_string())
+}
+
+#[derive(Clone, Debug)]
+struct ChainCase { l1: usize, l2: Option<usize> }
+
+fn space_chains(ctx: &Ctx, d: &Dom) {
+    let thorough = ctx.tier.is_thorough();
+    let sp = ctx.space("build.chains",
+        "TA -> CA1 -> [CA2 ->] objects with every combination of {refuse, trim} x {explicit, inherit, missing} per family at every CA level (52 level settings; 52 one-CA chains and every conforming one of the 52 x 52 two-CA chains; explicit sets nested 0,1,2 / 0,1 / 0 so that nothing overclaims); under the last CA: EE certificates (TbsCert) with {refuse, trim} x {explicit, inherit} for all families, a ROA (RoaBuilder) with one prefix in every family the CA effectively holds, and -- for one-CA chains always, for two-CA chains in the thorough tier -- a manifest (inheriting EE) and an ASPA; every certificate and object goes through decode / re-encode / accessor agreement and through the library's validators under ITS chain (validate_ca_at, validate_ee_at, SignedObject::validate_at, Roa::process, Manifest::validate_at, Aspa::process), and the resources each validator resolves are compared with a set model (missing -> nothing, inherit -> issuer's, explicit -> the set); non-trivial = distinct chains; outcome = depth + policies");
+    let levels = Level::all();
+    let ta_eff: [Vec<usize>; 3] = [vec![0, 1, 2, 3], vec![0, 1, 2, 3], vec![0, 1, 2, 3]];
+    let mut cases = vec![];
+    for l1 in 0..levels.len() {
+        if effective(&ta_eff, &levels[l1], 1).is_none() { continue }
+        cases.push(ChainCase { l1, l2: None });
+        let e1 = effective(&ta_eff, &levels[l1], 1).unwrap();
+        for l2 in 0..levels.len() { if effective(&e1, &levels[l2], 2).is_some() { cases.push(ChainCase { l1, l2: Some(l2) }) } }
+    }
+    let now = d.instants[1];
+    let files = mft_files();
+    let base_uri = d.dirs[1].clone();
+    run_cases(ctx, &sp, "chains", &cases,
+        |c| format!("TA -> CA1 {}{} -> objects", levels[c.l1].wit(), c.l2.map(|l| format!(" -> CA2 {}", levels[l].wit())).unwrap_or_default()),
+        |c| {
+            let mut r = CaseResult::default();
+            r.der_hash = fnv(format!("{:?}", (c.l1, c.l2)).as_bytes());
+            r.label = format!("depth {} {:?}{}", if c.l2.is_some() { 3 } else { 2 }, levels[c.l1].policy, c.l2.map(|l| format!("/{:?}", levels[l].policy)).unwrap_or_default());
+            let res = guard(|| -> Result<(), String> {
+                // ---- the CA levels
+                let e1 = effective(&ta_eff, &levels[c.l1], 1).ok_or("model")?;
+                let ca1 = chain_ca(d, &levels[c.l1], 1, 1, 0, &d.ta)?;
+                let rc1 = ca1.clone().validate_ca_at(&d.ta, true, now).map_err(|e| { r.fail("validate", format!("CA1 under the TA: {e}")); "stop".to_string() });
+                let Ok(rc1) = rc1 else { return Ok(()) };
+                check_resolved(&mut r, "CA1", &rc1, &e1);
+                let (ca_rc, ca_key, eff, depth) = match c.l2 {
+                    None => (rc1, 1usize, e1, 2usize),
+                    Some(l2) => {
+                        let e2 = effective(&e1, &levels[l2], 2).ok_or("model")?;
+                        let ca2 = chain_ca(d, &levels[l2], 2, 2, 1, &rc1)?;
+                        if twin(&mut r, &ca2, |c| c.to_captured().as_slice().to_vec(), |b| Cert::decode(b).map_err(|e| e.to_string()), obs_cert).is_none() { return Ok(()) }
+                        let rc2 = match ca2.validate_ca_at(&rc1, true, now) { Ok(x) => x, Err(e) => { r.fail("validate", format!("CA2 under CA1: {e}")); return Ok(()) } };
+                        check_resolved(&mut r, "CA2", &rc2, &e2);
+                        (rc2, 2usize, e2, 3usize)
+                    }
+                };
+                let signer = CaseSigner::new(&d.signer, 7);
+                // ---- EE certificates
+                for policy in [Overclaim::Refuse, Overclaim::Trim] { for ch in [Ch::Explicit, Ch::Inherit] {
+                    let fam = |f: usize| if eff[f].contains(&0) || (ch == Ch::Inherit) { if ch == Ch::Inherit { ResCh::Inherit } else { ResCh::Blocks(vec![0]) } } else { ResCh::Missing };
+                    let spec = CertSpec { v4: fam(0), v6: fam(1), asn: fam(2), overclaim: policy, subject_key: 3, ..CertSpec::base(CKind::Ee) };
+                    if !spec.conforming() { continue }
+                    let mut t = spec.build(d);
+                    t.set_authority_key_identifier(Some(ca_rc.subject_key_identifier())); t.set_issuer(ca_rc.subject().clone());
+                    let ee = t.into_cert(&d.signer, &Kid(ca_key)).map_err(|e| e.to_string())?;
+                    let Some((_, dec)) = twin(&mut r, &ee, |c| c.to_captured().as_slice().to_vec(), |b| Cert::decode(b).map_err(|e| e.to_string()), obs_cert) else { continue };
+                    match dec.validate_ee_at(&ca_rc, true, now) {
+                        Ok(rc) => { let want: [Vec<usize>; 3] = std::array::from_fn(|f| match ch { Ch::Inherit => eff[f].clone(), _ => if eff[f].contains(&0) { vec![0] } else { vec![] } });
+                                    check_resolved(&mut r, &format!("EE certificate {policy:?}/{ch:?}"), &rc, &want) }
+                        Err(e) => r.fail("validate", format!("EE certificate {policy:?}/{ch:?} under its CA: {e}")),
+                    }
+                }}
+                // ---- ROA
+                if eff[0].contains(&0) || eff[1].contains(&0) {
+                    let mut b = RoaBuilder::new(Asn::from_u32(65536));
+                    if eff[0].contains(&0) { b.push_v4_addr(Ipv4Addr::new(10, 0, 0, 0), 24, Some(24)) }
+                    if eff[1].contains(&0) { b.push_v6_addr(Ipv6Addr::from(0u128), 128, None) }
+                    let mut sob = SoSpec::base().builder(d); sob.set_issuer(Some(ca_rc.subject().clone()));
+                    let roa = b.finalize(sob, &signer, &Kid(ca_key)).map_err(|e| e.to_string())?;
+                    if let Some((bytes, dec)) = twin(&mut r, &roa, |m| m.to_captured().as_slice().to_vec(), |x| Roa::decode(x, true).map_err(|e| e.to_string()), obs_roa) {
+                        match SignedObject::decode(bytes.as_slice(), true).map_err(|e| e.to_string()).and_then(|s| s.validate_at(&ca_rc, true, now).map_err(|e| e.to_string())) { Ok(_) => {}, Err(e) => r.fail("validate", format!("ROA, SignedObject::validate_at under its CA: {e}")) }
+                        if let Err(e) = dec.process(&ca_rc, true, |_| Ok(())) { r.fail("validate", format!("ROA, Roa::process under its CA: {e}")) }
+                        if let Err(e) = roa.clone().process(&ca_rc, true, |_| Ok(())) { r.fail("validate", format!("built ROA, Roa::process under its CA: {e}")) }
+                    }
+                }
+                if depth == 2 || thorough {
+                    // ---- manifest (its EE certificate inherits everything)
+                    let mut sob = SoSpec::base().builder(d); sob.set_issuer(Some(ca_rc.subject().clone()));
+                    let m = ManifestContent::new(d.serials[3].1, d.instants[1], d.instants[3], DigestAlgorithm::sha256(), [0usize, 3].iter().map(|&i| FileAndHash::new(files[i].0.clone(), files[i].1.clone())))
+                        .into_manifest(sob, &signer, &Kid(ca_key)).map_err(|e| e.to_string())?;
+                    if let Some((_, dec)) = twin(&mut r, &m, |m| m.to_captured().as_slice().to_vec(), |x| Manifest::decode(x, true).map_err(|e| e.to_string()), |m| obs_manifest(m, &base_uri)) {
+                        match dec.validate_at(&ca_rc, true, now) { Ok((rc, _)) => check_resolved(&mut r, "manifest EE certificate", &rc, &eff), Err(e) => r.fail("validate", format!("manifest under its CA: {e}")) }
+                    }
+                    // ---- ASPA
+                    if eff[2].contains(&0) {
+                        let mut sob = SoSpec::base().builder(d); sob.set_issuer(Some(ca_rc.subject().clone()));
+                        let a = AspaBuilder::new(Asn::from_u32(0), vec![Asn::from_u32(1)]).map_err(|e| e.to_string())?.finalize(sob, &signer, &Kid(ca_key)).map_err(|e| e.to_string())?;
+                        if let Some((_, dec)) = twin(&mut r, &a, |m| m.to_captured().as_slice().to_vec(), |x| Aspa::decode(x, true).map_err(|e| e.to_string()), obs_aspa) {
+                            if let Err(e) = dec.process(&ca_rc, true, |_| Ok(())) { r.fail("validate", format!("ASPA, Aspa::process under its CA: {e}")) }
+                        }
+                    }
+                }
+                Ok(())
+            });
+            match res { Ok(Ok(())) => {}, Ok(Err(e)) => if e != "stop" { r.fail("build", e) }, Err(p) => r.fail("build", p) }
+            r.der_hash = fnv(format!("{:?}", (c.l1, c.l2)).as_bytes());
+            r
+        });
+    sp.done(true, &format!("{} conforming chains", cases.len()));
+}
+
+
+//============ History, environment, handed-out iterators, ownership ==========
+
+/// A signer that, at the n-th call of one of its methods, either fails or
+/// sleeps across a second boundary and then carries on.
+struct HookSigner<'a> { inner: CaseSigner<'a>, method: usize, at_call: usize, sleep_ms: u64, calls: std::sync::atomic::AtomicUsize }
+const HOOK_METHODS: [&str; 4] = ["get_key_info", "sign", "sign_one_off", "rand"];
+
+impl<'a> HookSigner<'a> {
+    fn new(d: &'a Dom, method: usize, at_call: usize, sleep_ms: u64) -> Self { HookSigner { inner: CaseSigner::new(&d.signer, 7), method, at_call, sleep_ms, calls: Default::default() } }
+    /// true = fail now
+    fn hook(&self, m: usize) -> bool {
+        if m != self.method { return false }
+        let n = self.calls.fetch_add(1, std::sync::atomic::Ordering::SeqCst);
+        if n != self.at_call { return false }
+        if self.sleep_ms > 0 { std::thread::sleep(std::time::Duration::from_millis(self.sleep_ms)); false } else { true }
+    }
+}
+
+impl Signer for HookSigner<'_> {
+    type KeyId = Kid;
+    type Error = io::Error;
+    fn create_key(&self, a: PublicKeyFormat) -> Result<Kid, io::Error> { self.inner.create_key(a) }
+    fn get_key_info(&self, k: &Kid) -> Result<PublicKey, KeyError<io::Error>> { if self.hook(0) { return Err(KeyError::KeyNotFound) } self.inner.get_key_info(k) }
+    fn destroy_key(&self, k: &Kid) -> Result<(), KeyError<io::Error>> { self.inner.destroy_key(k) }
+    fn sign<Alg: SignatureAlgorithm, D: AsRef<[u8]> + ?Sized>(&self, k: &Kid, alg: Alg, d: &D) -> Result<Signature<Alg>, SigningError<io::Error>> {
+        if self.hook(1) { return Err(SigningError::Signer(io::Error::other("the signer fails"))) } self.inner.sign(k, alg, d) }
+    fn sign_one_off<Alg: SignatureAlgorithm, D: AsRef<[u8]> + ?Sized>(&self, alg: Alg, d: &D) -> Result<(Signature<Alg>, PublicKey), io::Error> {
+        if self.hook(2) { return Err(io::Error::other("the signer fails")) } self.inner.sign_one_off(alg, d) }
+    fn rand(&self, target: &mut [u8]) -> Result<(), io::Error> { if self.hook(3) { return Err(io::Error::other("the signer fails")) } self.inner.rand(target) }
+}
+
+fn obs_text(o: &Obs) -> String { o.0.iter().map(|(n, v)| format!("{n}={v}")).collect::<Vec<_>>().join("\n") }
+
+/// The routes that build one signed thing with a given signer (used by the
+/// failing- and slow-signer predecessors). Returns everything observable.
+const ROUTES: [&str; 9] = ["TbsCert::into_cert", "TbsCertList::into_crl", "ManifestContent::into_manifest", "RoaBuilder::finalize", "AspaBuilder::finalize",
+    "Csr::construct_rpki_ca", "IdCert::new_ee", "SignedMessage::create", "SignedObjectBuilder::finalize"];
+fn build_route<S: Signer<KeyId = Kid>>(d: &Dom, route: usize, signer: &S, default_signing_time: bool) -> Result<String, String>
+where S::Error: std::fmt::Display {
+    let sob = || { let mut b = SoSpec::base().builder(d); if default_signing_time { b = SignedObjectBuilder::new(b.serial_number(), b.validity(), b.crl_uri().clone(), b.ca_issuer().clone(), b.signed_object().clone()); } b };
+    let files = mft_files();
+    let base_uri = d.dirs[1].clone();
+    let probes: Vec<Serial> = d.serials.iter().map(|s| s.1).collect();
+    let two = |built: &Obs, decoded: &Obs, verdict: String| -> Result<String, String> {
+        match diff(built, decoded) { Some(x) => Err(format!("built and decoded twin disagree: {x}")), None => Ok(format!("{}\nverdict={verdict}", obs_text(decoded))) } };
+    let now = d.instants[1];
+    match route {
+        0 => { let c = CertSpec::base(CKind::Ca).build(d).into_cert(signer, &Kid(0)).map_err(|e| e.to_string())?;
+               let t = Cert::decode(c.to_captured().as_slice()).map_err(|e| e.to_string())?;
+               two(&obs_cert(&c), &obs_cert(&t), r_res(validate_cert(d, CKind::Ca, &t, now))) }
+        1 => { let c = TbsCertList::new(RpkiSignatureAlgorithm::default(), d.issuer_name(1, 0), d.instants[1], d.instants[3], vec![CrlEntry::new(d.serials[3].1, d.instants[3]), CrlEntry::new(d.serials[0].1, d.instants[0])],
+                   d.signer.public(0).key_identifier(), d.serials[4].1).into_crl(signer, &Kid(0)).map_err(|e| e.to_string())?;
+               let t = Crl::decode(c.to_captured().as_slice()).map_err(|e| e.to_string())?;
+               two(&obs_crl(&c, &probes), &obs_crl(&t, &probes), r_res(t.verify_signature(&d.signer.public(0)))) }
+        2 => { let c = ManifestContent::new(d.serials[3].1, d.instants[1], d.instants[3], DigestAlgorithm::sha256(), [0usize, 3].iter().map(|&i| FileAndHash::new(files[i].0.clone(), files[i].1.clone())))
+                   .into_manifest(sob(), signer, &Kid(0)).map_err(|e| e.to_string())?;
+               let t = Manifest::decode(c.to_captured().as_slice(), true).map_err(|e| e.to_string())?;
+               two(&obs_manifest(&c, &base_uri), &obs_manifest(&t, &base_uri), r_res(t.clone().validate_at(&d.ta, true, now))) }
+        3 => { let mut b = RoaBuilder::new(Asn::from_u32(65536)); b.push_v4_addr(Ipv4Addr::new(10, 0, 0, 0), 24, Some(24)); b.push_v6_addr(Ipv6Addr::from(0u128), 128, None);
+               let c = b.finalize(sob(), signer, &Kid(0)).map_err(|e| e.to_string())?;
+               let t = Roa::decode(c.to_captured().as_slice(), true).map_err(|e| e.to_string())?;
+               two(&obs_roa(&c), &obs_roa(&t), r_res(t.clone().process(&d.ta, true, |_| Ok(())))) }
+        4 => { let c = AspaBuilder::new(Asn::from_u32(0), vec![Asn::from_u32(65536), Asn::from_u32(1)]).map_err(|e| e.to_string())?.finalize(sob(), signer, &Kid(0)).map_err(|e| e.to_string())?;
+               let t = Aspa::decode(c.to_captured().as_slice(), true).map_err(|e| e.to_string())?;
+               two(&obs_aspa(&c), &obs_aspa(&t), r_res(t.clone().process(&d.ta, true, |_| Ok(())))) }
+        5 => { let c = Csr::construct_rpki_ca(signer, &Kid(3), &d.dirs[1], &d.mfts[1], d.https[2].as_ref()).map_err(|e| e.to_string())?;
+               let t = RpkiCaCsr::decode(c.as_slice()).map_err(|e| e.to_string())?;
+               Ok(obs_text(&obs_csr(&t))) }
+        6 => { let c = IdCert::new_ee(&d.signer.public(4), d.validity((1, 3)), &Kid(0), signer).map_err(|e| e.to_string())?;
+               let t = IdCert::decode(c.to_captured().as_slice()).map_err(|e| e.to_string())?;
+               two(&obs_idcert(&c), &obs_idcert(&t), r_res(t.validate_ee_at(&d.signer.public(0), now))) }
+        8 => { let mut b = sob(); b.set_as_resources_inherit();
+               let c = b.finalize(Oid(Bytes::copy_from_slice(&der::oid(&[1, 2, 840, 113549, 1, 9, 16, 1, 35])[2..])), Bytes::from(der::seq(&[der::int_u(7)])), signer, &Kid(0)).map_err(|e| e.to_string())?;
+               let t = SignedObject::decode(cap(c.encode_ref()).as_slice(), true).map_err(|e| e.to_string())?;
+               two(&obs_sigobj(&c), &obs_sigobj(&t), r_res(t.clone().validate_at(&d.ta, true, now))) }
+        _ => { let c = SignedMessage::create(Bytes::from_static(b"<msg/>"), d.validity((1, 3)), &Kid(0), signer).map_err(|e| e.to_string())?;
+               let t = SignedMessage::decode(c.to_captured().as_slice(), true).map_err(|e| e.to_string())?;
+               // the encoding carries wall-clock values (signing time, CRL number): content and verdict only
+               if c.content().to_bytes() != t.content().to_bytes() || c.content_type() != t.content_type() { return Err("built and decoded message disagree".into()) }
+               Ok(format!("content={} verdict={}", hex(&t.content().to_bytes()), r_res(t.validate_at(&d.signer.public(0), now)))) }
+    }
+}
+
+/// Subjects of the history space: representative evaluations, accepted and
+/// rejected, short and long, each reduced to one comparable text.
+const N_SUBJECTS: usize = 14;
+fn subject(d: &Dom, i: usize) -> String {
+    let res = guard(|| -> Result<String, String> {
+        let signer = CaseSigner::new(&d.signer, 7);
+        match i {
+            0..=7 => build_route(d, i, &signer, false),
+            8 => { let c = CertSpec { win: (0, 0), ..CertSpec::base(CKind::Ee) }.build(d).into_cert(&d.signer, &Kid(0)).map_err(|e| e.to_string())?;
+                   Ok(format!("expired EE: {}", r_res(validate_cert(d, CKind::Ee, &c, d.instants[4])))) }
+            9 => { let c = CertSpec::base(CKind::Ca).build(d).into_cert(&d.signer, &Kid(0)).map_err(|e| e.to_string())?; let b = c.to_captured();
+                   Ok(format!("truncated certificate: {}", r_res(Cert::decode(&b.as_slice()[..b.len() - 7])))) }
+            10 => { let mut b = RoaBuilder::new(Asn::from_u32(1)); b.push_v4_addr(Ipv4Addr::new(10, 0, 0, 0), 24, None);
+                    let c = b.finalize(SoSpec::base().builder(d), &signer, &Kid(0)).map_err(|e| e.to_string())?;
+                    Ok(format!("ROA read as a manifest: {} / as an ASPA: {}", r_res(Manifest::decode(c.to_captured().as_slice(), true)), r_res(Aspa::decode(c.to_captured().as_slice(), true)))) }
+            11 => { let probes: Vec<Serial> = vec![Serial::from(1u64), Serial::from(300u64), Serial::from(599u64), Serial::from(600u64)];
+                    let c = TbsCertList::new(RpkiSignatureAlgorithm::default(), d.issuer_name(0, 0), d.instants[1], d.instants[3], (0..300u64).map(|i| CrlEntry::new(Serial::from(2 * i + 1), d.instants[(i % 5) as usize])).collect::<Vec<_>>(),
+                        d.signer.public(0).key_identifier(), d.serials[5].1).into_crl(&d.signer, &Kid(0)).map_err(|e| e.to_string())?;
+                    let t = Crl::decode(c.to_captured().as_slice()).map_err(|e| e.to_string())?;
+                    match diff(&obs_crl(&c, &probes), &obs_crl(&t, &probes)) { Some(x) => Err(x), None => Ok(obs_text(&obs_crl(&t, &probes))) } }
+            12 => { let mut out = String::new();
+                    for fam in [Fam::As, Fam::V4, Fam::V6] { for o in [vec![0usize, 2, 4, 1, 3], vec![4, 3, 2, 1, 0], vec![0, 3, 1]] { let (a, b) = res_via(d, fam, 0, &o)?; out.push_str(&format!("{a} | {b}\n")) } }
+                    Ok(out) }
+            _ => { let mut b = RoaBuilder::new(Asn::from_u32(1)); b.push_v4_addr(Ipv4Addr::new(10, 0, 0, 0), 24, None);
+                   let c = b.finalize(SoSpec::base().builder(d), &signer, &Kid(3)).map_err(|e| e.to_string())?;     // signed by a key that is not the TA's
+                   Ok(format!("ROA under the wrong issuer: {}", r_res(c.process(&d.ta, true, |_| Ok(())).map(|_| ())))) }
+        }
+    });
+    match res { Ok(Ok(s)) => format!("Ok {s}"), Ok(Err(e)) => format!("Err {e}"), Err(p) => format!("PANIC {p}") }
+}
+
+/// A writer that fails after k octets.
+struct FailAfter(usize);
+impl io::Write for FailAfter {
+    fn write(&mut self, buf: &[u8]) -> io::Result<usize> { if self.0 == 0 { return Err(io::Error::other("sink full")) } let n = buf.len().min(self.0); self.0 -= n; Ok(n) }
+    fn flush(&mut self) -> io::Result<()> { Ok(()) }
+}
+
+#[derive(Clone, Debug)]
+enum Pred { Subject(usize), FailingSigner { route: usize, method: usize, at_call: usize }, PanickingIter { target: usize, after: usize }, FailingWriter { doc: usize, after: usize },
+            Truncated { doc: usize, at: usize }, BadSignature(usize), SameIdentity(usize) }
+
+impl Pred {
+    fn wit(&self) -> String { match self {
+        Pred::Subject(i) => format!("subject#{i}"),
+        Pred::FailingSigner { route, method, at_call } => format!("{} with a signer whose {} fails at call {}", ROUTES[*route], HOOK_METHODS[*method], at_call),
+        Pred::PanickingIter { target, after } => format!("{} fed an iterator that panics after {after} items", ["ManifestContent::new", "RoaIpAddressesBuilder::extend", "TbsCertList::into_crl", "TbsCert::v4_resources_from_iter", "AsBlocks::from_iter"][*target]),
+        Pred::FailingWriter { doc, after } => format!("encoding {} into a writer that fails after {after} octets", ["a TBSCertList", "a ROA content", "a certificate", "IP resources"][*doc]),
+        Pred::Truncated { doc, at } => format!("decoding {} cut at {at}", ["a certificate", "a ROA", "a CRL"][*doc]),
+        Pred::BadSignature(i) => format!("validating {} with one bit of its signature flipped", ["a certificate", "a ROA", "a CRL"][*i]),
+        Pred::SameIdentity(i) => format!("an object with the identity of subject#{i} and other content"),
+    } }
+    /// one representative per exit-path class (thorough pairs)
+    fn class(&self) -> String { match self { Pred::Subject(i) => format!("s{i}"), Pred::FailingSigner { route, method, .. } => format!("fs{route}/{method}"), Pred::PanickingIter { target, .. } => format!("pi{target}"),
+        Pred::FailingWriter { doc, .. } => format!("fw{doc}"), Pred::Truncated { doc, .. } => format!("tr{doc}"), Pred::BadSignature(i) => format!("bs{i}"), Pred::SameIdentity(i) => format!("si{i}") } }
+
+    fn run(&self, d: &Dom) {
+        let _ = guard(|| {
+            let signer = CaseSigner::new(&d.signer, 7);
+            let docs = |doc: usize| -> Vec<u8> { match doc {
+                0 => CertSpec::base(CKind::Ca).build(d).into_cert(&d.signer, &Kid(0)).unwrap().to_captured().as_slice().to_vec(),
+                1 => { let mut b = RoaBuilder::new(Asn::from_u32(7)); b.push_v4_addr(Ipv4Addr::new(10, 0, 0, 0), 24, None); b.finalize(SoSpec::base().builder(d), &signer, &Kid(0)).unwrap().to_captured().as_slice().to_vec() }
+                _ => TbsCertList::new(RpkiSignatureAlgorithm::default(), d.issuer_name(1, 0), d.instants[1], d.instants[3], vec![CrlEntry::new(d.serials[3].1, d.instants[3])], d.signer.public(0).key_identifier(), d.serials[4].1)
+                        .into_crl(&d.signer, &Kid(0)).unwrap().to_captured().as_slice().to_vec(),
+            } };
+            match self {
+                Pred::Subject(i) => { let _ = subject(d, *i); }
+                Pred::FailingSigner { route, method, at_call } => { let s = HookSigner::new(d, *method, *at_call, 0); let _ = build_route(d, *route, &s, false); }
+                Pred::PanickingIter { target, after } => {
+                    let after = *after;
+                    let files = mft_files(); let a4 = roa_alphabet(true);
+                    match target {
+                        0 => { let _ = ManifestContent::new(d.serials[3].1, d.instants[1], d.instants[3], DigestAlgorithm::sha256(),
+                                   (0..).map(|i: usize| { if i >= after { panic!("iterator gives up") } FileAndHash::new(files[i % 4].0.clone(), files[i % 4].1.clone()) })); }
+                        1 => { let mut b = rpki::repository::roa::RoaIpAddressesBuilder::new(); b.extend((0..).map(|i: usize| { if i >= after { panic!("iterator gives up") } a4[i % 6] })); }
+                        2 => { let _ = TbsCertList::new(RpkiSignatureAlgorithm::default(), d.issuer_name(1, 0), d.instants[1], d.instants[3],
+                                   (0..10u64).map(move |i| { if i as usize >= after { panic!("iterator gives up") } CrlEntry::new(Serial::from(i), pki::time(pki::T0)) }),
+                                   d.signer.public(0).key_identifier(), d.serials[4].1).into_crl(&d.signer, &Kid(0)); }
+                        3 => { let mut t = CertSpec::base(CKind::Ca).build(d); t.v4_resources_from_iter((0..).map(|i: usize| { if i >= after { panic!("iterator gives up") } unit_ip(Fam::V4, 2 * (7 - i % 7)) })); }
+                        _ => { let _: AsBlocks = (0..).map(|i: usize| { if i >= after { panic!("iterator gives up") } unit_as(2 * (7 - i % 7)) }).collect(); }
+                    }
+                }
+                Pred::FailingWriter { doc, after } => {
+                    let mut w = FailAfter(*after);
+                    match doc {
+                        0 => { let t: TbsCertList<Vec<CrlEntry>> = TbsCertList::new(RpkiSignatureAlgorithm::default(), d.issuer_name(1, 0), d.instants[1], d.instants[3], vec![CrlEntry::new(d.serials[3].1, d.instants[3])], d.signer.public(0).key_identifier(), d.serials[4].1);
+                               let t: TbsCertList<rpki::repository::crl::RevokedCertificates> = t.into(); let _ = t.encode_ref().write_encoded(Mode::Der, &mut w); }
+                        1 => { let mut b = RoaBuilder::new(Asn::from_u32(7)); b.push_v4_addr(Ipv4Addr::new(10, 0, 0, 0), 24, Some(25)); b.push_v6_addr(Ipv6Addr::from(0u128), 128, None);
+                               let _ = b.to_attestation().encode_ref().write_encoded(Mode::Der, &mut w); }
+                        2 => { let c = Cert::decode(docs(0).as_slice()).unwrap(); let _ = c.encode_ref().write_encoded(Mode::Der, &mut w); }
+                        _ => { let r = pki::ip_res(32, &ResCh::Blocks(vec![0, 2, 3]).claim(&v4_atoms())); let _ = r.encode_ref().write_encoded(Mode::Der, &mut w); }
+                    }
+                }
+                Pred::Truncated { doc, at } => { let b = docs(*doc); let cut = (*at).min(b.len());
+                    match doc { 0 => { let _ = Cert::decode(&b[..cut]); } 1 => { let _ = Roa::decode(&b[..cut], true); let _ = Manifest::decode(&b[..cut], false); } _ => { let _ = Crl::decode(&b[..cut]); } } }
+                Pred::BadSignature(i) => { let mut b = docs(*i); let n = b.len(); b[n - 3] ^= 1;
+                    match i { 0 => { if let Ok(c) = Cert::decode(b.as_slice()) { let _ = c.validate_ca_at(&d.ta, true, d.instants[1]); } }
+                              1 => { if let Ok(c) = Roa::decode(b.as_slice(), true) { let _ = c.process(&d.ta, true, |_| Ok(())); } }
+                              _ => { if let Ok(c) = Crl::decode(b.as_slice()) { let _ = c.verify_signature(&d.signer.public(0)); } } } }
+                Pred::SameIdentity(i) => {
+                    // same serial, key and names as the subject, other validity / entries / prefixes
+                    match i { 0 => { let c = CertSpec { win: (0, 4), notify: 1, ..CertSpec::base(CKind::Ca) }.build(d).into_cert(&d.signer, &Kid(0)).unwrap(); let _ = validate_cert(d, CKind::Ca, &Cert::decode(c.to_captured().as_slice()).unwrap(), d.instants[2]); }
+                              1 => { let c = TbsCertList::new(RpkiSignatureAlgorithm::default(), d.issuer_name(1, 0), d.instants[1], d.instants[3], vec![CrlEntry::new(d.serials[5].1, d.instants[4])], d.signer.public(0).key_identifier(), d.serials[4].1).into_crl(&d.signer, &Kid(0)).unwrap();
+                                     let t = Crl::decode(c.to_captured().as_slice()).unwrap(); let _ = t.contains(d.serials[3].1); let mut t2 = t.clone(); t2.cache_serials(); let _ = t2.contains(d.serials[3].1); }
+                              _ => { let mut b = RoaBuilder::new(Asn::from_u32(65536)); b.push_v4_addr(Ipv4Addr::new(10, 0, 0, 0), 8, Some(32)); let c = b.finalize(SoSpec::base().builder(d), &signer, &Kid(0)).unwrap();
+                                     let _ = Roa::decode(c.to_captured().as_slice(), true).unwrap().process(&d.ta, true, |_| Ok(())); } }
+                }
+            }
+        });
+    }
+}
+
+/// Runs jobs on dedicated OS threads, 16 at a time.
+fn on_fresh_threads<T: Send, J: Sync>(jobs: &[J], f: impl Fn(&J) -> T + Sync) -> Vec<T> {
+    let mut out = Vec::with_capacity(jobs.len());
+    for chunk in jobs.chunks(16) {
+        std::thread::scope(|sc| {
+            let hs: Vec<_> = chunk.iter().map(|j| { let f = &f; sc.spawn(move || f(j)) }).collect();
+            for h in hs { out.push(h.join().expect("sequence thread")) }
+        });
+    }
+    out
+}
+
+fn space_history(ctx: &Ctx, d: &Dom) {
+    let thorough = ctx.tier.is_thorough();
+    let sp = ctx.space("history.independent",
+        "sequences on dedicated OS threads (std::thread, never a pool worker): one predecessor p, then all 14 subjects (builds of every object kind with full built-vs-decoded observation and verdict; an expired certificate, a truncated one, a ROA read as a manifest / ASPA, a ROA under the wrong issuer, a 300-entry CRL, unsorted resource chains) in order and -- thorough -- in reverse; every observation must equal the subject's observation when it runs first thing on its own fresh thread. Predecessors take every exit path of the same API family: the subjects themselves; every builder route with a signer failing in get_key_info / sign / sign_one_off / rand at its 1st and 2nd call; builders fed an iterator that panics after 0..3 items (catch_unwind); encoders writing into a sink that fails after k octets (every k for a ROA content and IP resources, every 4th for a TBSCertList, every 16th for a certificate); decoders given a certificate / ROA / CRL cut at every 24th octet; validation with a flipped signature bit; objects with the same serial, key and names but other content. Thorough also runs all ordered pairs of one predecessor per exit-path class. non-trivial = distinct predecessors (pairs); outcome = predecessor class");
+    let mut preds: Vec<Pred> = vec![];
+    for i in 0..N_SUBJECTS { preds.push(Pred::Subject(i)) }
+    for route in 0..ROUTES.len() { for method in 0..4 { for at_call in 0..2 { preds.push(Pred::FailingSigner { route, method, at_call }) } } }
+    for target in 0..5 { for after in 0..4 { preds.push(Pred::PanickingIter { target, after }) } }
+    for (doc, step, max) in [(0usize, 4usize, 160usize), (1, 1, 48), (2, 16, 1200), (3, 1, 40)] { let mut k = 0; while k <= max { preds.push(Pred::FailingWriter { doc, after: k }); k += step } }
+    for (doc, len) in [(0usize, 1200usize), (1, 1900), (2, 420)] { let mut at = 0; while at < len { preds.push(Pred::Truncated { doc, at }); at += 24 } }
+    for i in 0..3 { preds.push(Pred::BadSignature(i)); preds.push(Pred::SameIdentity(i)) }
+    // baseline: each subject first thing on its own fresh thread
+    let idx: Vec<usize> = (0..N_SUBJECTS).collect();
+    let baseline = on_fresh_threads(&idx, |&i| subject(d, i));
+    let again = on_fresh_threads(&idx, |&i| subject(d, i));
+    for i in 0..N_SUBJECTS {
+        if baseline[i] != again[i] { ctx.machinery_error(format!("history: subject#{i} is not reproducible on a fresh thread")) }
+        if baseline[i].starts_with("PANIC") { ctx.fail("C05.history.independent", format!("subject#{i} alone on a fresh thread"), baseline[i].clone()) }
+    }
+    let mut seqs: Vec<Vec<Pred>> = preds.iter().map(|p| vec![p.clone()]).collect();
+    if thorough {
+        let mut reps: Vec<Pred> = vec![]; let mut seen = BTreeSet::new();
+        for p in &preds { if seen.insert(p.class()) { reps.push(p.clone()) } }
+        for a in &reps { for b in &reps { seqs.push(vec![a.clone(), b.clone()]) } }
+    }
+    let mut slow: Vec<(usize, usize, usize)> = vec![];
+    for route in [2usize, 3, 4, 7, 8] { for (m, at) in [(0usize, 0usize), (1, 0), (1, 1), (2, 0), (3, 0)] { slow.push((route, m, at)) } }
+    let (results, res) = std::thread::scope(|sc| {
+      // the slow-signer runs of the environment space sleep most of the time: start them now
+      let hs: Vec<_> = slow.iter().map(|&(route, m, at)| sc.spawn(move || {
+          WHOLE_SECONDS.with(|w| w.set((true, 0)));
+          let s = HookSigner::new(d, m, at, 1100);
+          let r = match guard(|| build_route(d, route, &s, true)) { Ok(r) => r, Err(p) => Err(format!("PANIC {p}")) };
+          WHOLE_SECONDS.with(|w| w.set((false, 0)));
+          r
+      })).collect();
+      let results = on_fresh_threads(&seqs, |seq| {
+        for p in seq { p.run(d) }
+        let mut bad: Vec<String> = vec![];
+        let order: Vec<usize> = if thorough { (0..N_SUBJECTS).chain((0..N_SUBJECTS).rev()).collect() } else { (0..N_SUBJECTS).collect() };
+        for i in order { let got = subject(d, i); if got != baseline[i] && bad.len() < 3 {
+            let pos = got.bytes().zip(baseline[i].bytes()).position(|(a, b)| a != b).unwrap_or(0);
+            bad.push(format!("subject#{i} now answers ...{}... where alone it answers ...{}...", rpki_verif::trunc(&got[pos.saturating_sub(40).min(got.len())..], 160), rpki_verif::trunc(&baseline[i][pos.saturating_sub(40).min(baseline[i].len())..], 160))) } }
+        bad
+      });
+      let res: Vec<Result<String, String>> = hs.into_iter().map(|h| h.join().expect("slow signer thread")).collect();
+      (results, res)
+    });
+    let mut classes: BTreeMap<String, u64> = BTreeMap::new();
+    for (seq, bad) in seqs.iter().zip(results.iter()) {
+        *classes.entry(match &seq[0] { Pred::Subject(_) => "after a successful evaluation", Pred::FailingSigner { .. } => "after a failing signer", Pred::PanickingIter { .. } => "after a panicking iterator",
+            Pred::FailingWriter { .. } => "after a failing writer", Pred::Truncated { .. } => "after a decode error", Pred::BadSignature(_) => "after a validation error", Pred::SameIdentity(_) => "after the same identity with other content" }.to_string()).or_insert(0) += 1;
+        if !bad.is_empty() { ctx.fail("C05.history.independent", format!("after [{}]", seq.iter().map(|p| p.wit()).collect::<Vec<_>>().join("; then ")), bad.join(" | ")) }
+    }
+    sp.evals(seqs.len() as u64 * N_SUBJECTS as u64 * if thorough { 2 } else { 1 });
+    sp.nontrivial(seqs.len() as u64);
+    for (k, v) in classes { sp.outcomes_n(&k, v) }
+    sp.sample_str(|| format!("after [{}]: all {} subjects answer as on a fresh thread", preds[20].wit(), N_SUBJECTS));
+    sp.set("subjects", serde_json::json!(N_SUBJECTS)); sp.set("predecessors", serde_json::json!(preds.len()));
+    sp.done(true, &format!("{} sequences x {} subjects", seqs.len(), N_SUBJECTS));
+
+    // ---- environment (a): TZ west and east of UTC, in a child process each
+    let sp = ctx.space("environment",
+        "(a) the 14 subjects evaluated in child processes of this binary with TZ=XXX+11 (west of UTC), TZ=YYY-14 (east) and TZ=UTC must give the parent's observations; (b) every builder route with clock-derived defaults (SignedObjectBuilder's default signing time in a bare signed object, a manifest, a ROA and an ASPA; SignedMessage::create) run with a signer that sleeps 1.1 s -- across a second boundary -- inside get_key_info, sign (1st and 2nd call), sign_one_off or rand, all in parallel on dedicated threads: built value and decoded twin must agree at whole seconds (sub-second parts are dropped by DER and not judged) and the object must validate; non-trivial = distinct (route, sleeping method) / time zones; outcome = kind");
+    let exe = std::env::current_exe().ok();
+    for tz in ["XXX+11", "YYY-14", "UTC"] {
+        sp.eval(); sp.nontrivial(1); sp.outcome("time zone");
+        let out = exe.as_ref().and_then(|e| std::process::Command::new(e).env("C05_CHILD", "subjects").env("TZ", tz).output().ok());
+        match out {
+            Some(o) if o.status.success() => {
+                let lines: Vec<String> = String::from_utf8_lossy(&o.stdout).lines().filter_map(|l| l.strip_prefix("SUBJECT ").map(|x| x.to_string())).collect();
+                if lines.len() != N_SUBJECTS { ctx.machinery_error(format!("environment: child with TZ={tz} printed {} subjects", lines.len())); continue }
+                for i in 0..N_SUBJECTS { if lines[i] != format!("{:016x}", fnv(baseline[i].as_bytes())) { ctx.fail("C05.environment.tz", format!("TZ={tz} subject#{i}"), "the observation differs from the one taken in the parent process") } }
+            }
+            _ => ctx.machinery_error(format!("environment: cannot run the child process with TZ={tz}")),
+        }
+    }
+    // ---- environment (b): slow signers (they ran while the sequences above were running)
+    for (&(route, m, at), r) in slow.iter().zip(res.iter()) {
+        sp.eval(); sp.nontrivial(1); sp.outcome("slow signer");
+        match r {
+            Ok(text) => if !text.contains("verdict=Ok") { ctx.fail("C05.environment.slow_signer", format!("{} with a signer sleeping 1.1 s in {} (call {})", ROUTES[route], HOOK_METHODS[m], at), format!("does not validate: {}", rpki_verif::trunc(text.rsplit("verdict=").next().unwrap_or(""), 200))) },
+            Err(e) => ctx.fail("C05.environment.slow_signer", format!("{} with a signer sleeping 1.1 s in {} (call {})", ROUTES[route], HOOK_METHODS[m], at), e.clone()),
+        }
+    }
+    sp.sample_str(|| "ManifestContent::into_manifest with a signer sleeping 1.1 s in sign_one_off: built signing_time() == decoded signing time at whole seconds".into());
+    sp.done(true, &format!("3 time zones, {} slow-signer runs", slow.len()));
+}
+
+
+//============ Handed-out iterators, ownership of inputs, serde routes ========
+
+/// All call sequences of length <= 3 over next / nth(1) / size_hint /
+/// "clone and advance the clone" on an iterator the library hands out: what
+/// comes out, and what is left afterwards, must be the reference list.
+fn iter_sequences<I: Iterator, T: PartialEq + std::fmt::Debug>(make: &dyn Fn() -> I, render: &dyn Fn(I::Item) -> T, clone: Option<&dyn Fn(&I) -> I>) -> Option<String> {
+    let reference: Vec<T> = make().map(render).collect();
+    let nops = if clone.is_some() { 4 } else { 3 };
+    let mut seqs: Vec<Vec<usize>> = vec![vec![]];
+    for len in 1..=3 { for s in sequences(nops, len, len) { seqs.push(s) } }
+    for seq in seqs {
+        let mut it = make(); let mut pos = 0usize;
+        for &op in &seq {
+            match op {
+                0 => { let got = it.next().map(render); if got.as_ref() != reference.get(pos) { return Some(format!("after {seq:?}: next() gave {got:?}, the list says {:?}", reference.get(pos))) } if pos < reference.len() { pos += 1 } }
+                1 => { let got = it.nth(1).map(render); if got.as_ref() != reference.get(pos + 1) { return Some(format!("after {seq:?}: nth(1) gave {got:?}, the list says {:?}", reference.get(pos + 1))) } pos = (pos + 2).min(reference.len()) }
+                2 => { let (lo, hi) = it.size_hint(); let left = reference.len() - pos; if lo > left || hi.map(|h| h < left).unwrap_or(false) { return Some(format!("after {seq:?}: size_hint() = ({lo}, {hi:?}) with {left} items left")) } }
+                _ => { let mut c = clone.unwrap()(&it); let got = c.next().map(render); if got.as_ref() != reference.get(pos) { return Some(format!("after {seq:?}: a clone's next() gave {got:?}, the list says {:?}", reference.get(pos))) }
+                       if c.count() != reference.len().saturating_sub(pos + 1) { return Some(format!("after {seq:?}: a clone counts wrongly")) } }
+            }
+        }
+        let rest: Vec<T> = it.map(render).collect();
+        if rest != reference[pos..] { return Some(format!("after {seq:?}: {} items are left, the list says {}", rest.len(), reference.len() - pos)) }
+    }
+    None
+}
+
+fn b64(b: &[u8]) -> String { use base64::Engine; base64::engine::general_purpose::STANDARD.encode(b) }
+
+/// serde as a decode route: the JSON form (directly and through
+/// serde_json::Value) must give the object back, and the JSON form of octets
+/// the decoder rejects must be rejected.
+fn serde_route<T: serde::Serialize + serde::de::DeserializeOwned>(built: &T, bytes: &[u8], enc: &dyn Fn(&T) -> Vec<u8>, decodes: &dyn Fn(&[u8]) -> bool) -> Option<String> {
+    let text = match serde_json::to_string(built) { Ok(t) => t, Err(e) => return Some(format!("Serialize: {e}")) };
+    match serde_json::from_str::<T>(&text) { Ok(x) => if enc(&x) != bytes { return Some("from_str(to_string(x)) encodes differently".into()) }, Err(e) => return Some(format!("Deserialize of the serialised object: {e}")) }
+    match serde_json::to_value(built).and_then(serde_json::from_value::<T>) { Ok(x) => if enc(&x) != bytes { return Some("from_value(to_value(x)) encodes differently".into()) }, Err(e) => return Some(format!("through serde_json::Value: {e}")) }
+    let mut cuts: Vec<usize> = (0..bytes.len()).step_by((bytes.len() / 12).max(1)).collect(); cuts.push(bytes.len() - 1);
+    for cut in cuts {
+        let mut variants = vec![bytes[..cut].to_vec()];
+        let mut flipped = bytes.to_vec(); flipped[cut] ^= 0x20; variants.push(flipped);
+        for v in variants {
+            let want = decodes(&v);
+            let got = serde_json::from_str::<T>(&format!("\"{}\"", b64(&v))).is_ok();
+            if want != got { return Some(format!("octets the decoder {} are {} by Deserialize (cut/flip at {cut})", if want { "accepts" } else { "rejects" }, if got { "accepted" } else { "rejected" })) }
+        }
+    }
+    None
+}
+
+fn space_usage(ctx: &Ctx, d: &Dom) {
+    let sp = ctx.space("usage",
+        "handed_out: every call sequence of length <= 3 over next / nth(1) / size_hint / clone-and-advance on every iterator the built and decoded objects hand out (manifest iter and iter_uris, CRL revoked_certs().iter(), ROA v4/v6 addrs iter, iter, iter_origins, ASPA provider iter, IpBlocks / AsBlocks iter and iter_asns) against the collected list; ownership: certificates, manifests, signed objects and signed messages built from inputs that are views into a larger shared buffer, from_static, or have live clones that are mutated / dropped afterwards, against the same objects built from private copies (octets and accessors), and resource chains that share storage with a clone that is then intersected; serde: every Serialize/Deserialize type in scope (Cert, Crl, Manifest, Roa, Aspa, IdCert, RpkiCaCsr) through to_string/from_str and serde_json::Value, and Deserialize of rejected octets (cuts and bit flips) must reject exactly when decode does; non-trivial = distinct checks; outcome = family");
+    let signer = CaseSigner::new(&d.signer, 7);
+    let so = SoSpec::base();
+    let files = mft_files();
+    let base_uri = d.dirs[1].clone();
+    // ---- the objects (a refusal or panic here is the library's, reported as a violation)
+    let setup = guard(|| -> Result<_, String> {
+    let mft = ManifestContent::new(d.serials[3].1, d.instants[1], d.instants[3], DigestAlgorithm::sha256(), [0usize, 3, 5, 1].iter().map(|&i| FileAndHash::new(files[i].0.clone(), files[i].1.clone())))
+        .into_manifest(so.builder(d), &signer, &Kid(0)).map_err(|e| e.to_string())?;
+    let crl = TbsCertList::new(RpkiSignatureAlgorithm::default(), d.issuer_name(1, 0), d.instants[1], d.instants[3], (0..4).map(|i| CrlEntry::new(d.serials[i + 1].1, d.instants[i])).collect::<Vec<_>>(),
+        d.signer.public(0).key_identifier(), d.serials[4].1).into_crl(&d.signer, &Kid(0)).map_err(|e| e.to_string())?;
+    let a4 = roa_alphabet(true); let a6 = roa_alphabet(false);
+    let roa = { let mut b = RoaBuilder::new(Asn::from_u32(65536)); for i in [1usize, 0, 7] { b.push_v4(a4[i]) } for i in [9usize, 3] { b.push_v6(a6[i]) } b.finalize(so.builder(d), &signer, &Kid(0)).map_err(|e| e.to_string())? };
+    let aspa = AspaBuilder::new(Asn::from_u32(0), vec![Asn::from_u32(65536), Asn::from_u32(1), Asn::from_u32(4294967295)]).map_err(|e| e.to_string())?.finalize(so.builder(d), &signer, &Kid(0)).map_err(|e| e.to_string())?;
+    let cert = CertSpec { v4: ResCh::Blocks(vec![3, 0, 2]), v6: ResCh::Blocks(vec![1, 3]), asn: ResCh::Blocks(vec![2, 0, 3]), ..CertSpec::base(CKind::Ca) }.build(d).into_cert(&d.signer, &Kid(0)).map_err(|e| e.to_string())?;
+    let idc = IdCert::new_ee(&d.signer.public(4), d.validity((1, 3)), &Kid(0), &signer).map_err(|e| e.to_string())?;
+    let csr_bytes = Csr::construct_rpki_ca(&d.signer, &Kid(3), &d.dirs[1], &d.mfts[1], d.https[2].as_ref()).map_err(|e| e.to_string())?;
+    let csr = RpkiCaCsr::decode(csr_bytes.as_slice()).map_err(|e| format!("the library's decoder refuses a CSR it built: {e}"))?;
+    let mft_t = Manifest::decode(mft.to_captured().as_slice(), true).map_err(|e| format!("the library's decoder refuses an object it built: {e}"))?; let crl_t = Crl::decode(crl.to_captured().as_slice()).map_err(|e| format!("the library's decoder refuses an object it built: {e}"))?;
+    let roa_t = Roa::decode(roa.to_captured().as_slice(), true).map_err(|e| format!("the library's decoder refuses an object it built: {e}"))?; let aspa_t = Aspa::decode(aspa.to_captured().as_slice(), true).map_err(|e| format!("the library's decoder refuses an object it built: {e}"))?;
+    let cert_t = Cert::decode(cert.to_captured().as_slice()).map_err(|e| format!("the library's decoder refuses an object it built: {e}"))?;
+        Ok((mft, crl, roa, aspa, cert, idc, csr_bytes, csr, mft_t, crl_t, roa_t, aspa_t, cert_t))
+    });
+    let (mft, crl, roa, aspa, cert, idc, csr_bytes, csr, mft_t, crl_t, roa_t, aspa_t, cert_t) = match setup {
+        Ok(Ok(x)) => x,
+        Ok(Err(e)) | Err(e) => { sp.eval(); ctx.fail("C05.usage.build", "the representative objects of the usage space", e); sp.done(true, "setup failed"); return }
+    };
+    let mut checks: Vec<(String, Box<dyn Fn() -> Option<String> + Sync + '_>)> = vec![];
+    // ---- handed_out
+    for (who, m) in [("built", &mft), ("decoded", &mft_t)] {
+        let bu = &base_uri;
+        checks.push((format!("handed_out {who} manifest iter"), Box::new(move || iter_sequences(&|| m.content().iter(), &|f| format!("{}={}", hex(f.file()), hex(f.hash())), Some(&|i| i.clone())))));
+        checks.push((format!("handed_out {who} manifest iter_uris"), Box::new(move || iter_sequences(&|| m.content().iter_uris(bu), &|(u, h)| format!("{u}={}", hex(h.as_slice())), None))));
+    }
+    for (who, c) in [("built", &crl), ("decoded", &crl_t)] {
+        checks.push((format!("handed_out {who} CRL revoked_certs iter"), Box::new(move || iter_sequences(&|| c.revoked_certs().iter(), &|e| format!("{}@{}", e.user_certificate, r_time(e.revocation_date)), Some(&|i| i.clone())))));
+    }
+    for (who, r) in [("built", &roa), ("decoded", &roa_t)] {
+        checks.push((format!("handed_out {who} ROA v4_addrs iter"), Box::new(move || iter_sequences(&|| r.content().v4_addrs().iter(), &|a| format!("{a:?}"), Some(&|i| i.clone())))));
+        checks.push((format!("handed_out {who} ROA v6_addrs iter"), Box::new(move || iter_sequences(&|| r.content().v6_addrs().iter(), &|a| format!("{a:?}"), Some(&|i| i.clone())))));
+        checks.push((format!("handed_out {who} ROA iter"), Box::new(move || iter_sequences(&|| r.content().iter(), &|a| a.to_string(), None))));
+        checks.push((format!("handed_out {who} ROA iter_origins"), Box::new(move || iter_sequences(&|| r.content().iter_origins(), &|a| format!("{a:?}"), None))));
+    }
+    for (who, a) in [("built", &aspa), ("decoded", &aspa_t)] {
+        checks.push((format!("handed_out {who} ASPA provider iter"), Box::new(move || iter_sequences(&|| a.content().provider_as_set().iter(), &|x| x.to_string(), Some(&|i| i.clone())))));
+    }
+    for (who, c) in [("built", &cert), ("decoded", &cert_t)] {
+        checks.push((format!("handed_out {who} certificate resource iterators"), Box::new(move || {
+            let v4 = c.v4_resources().to_blocks().ok()?; let v6 = c.v6_resources().to_blocks().ok()?; let asb = c.as_resources().to_blocks().ok()?;
+            iter_sequences(&|| v4.iter(), &|b| format!("{}", b.display_v4()), None).or_else(|| iter_sequences(&|| v6.iter(), &|b| format!("{}", b.display_v6()), None))
+                .or_else(|| iter_sequences(&|| asb.iter(), &|b| b.to_string(), None)).or_else(|| iter_sequences(&|| asb.iter_asns(), &|b| b.to_string(), None))
+        })));
+    }
+    // ---- serde routes
+    checks.push(("serde Cert".into(), Box::new(|| serde_route(&cert, cert.to_captured().as_slice(), &|x: &Cert| x.to_captured().as_slice().to_vec(), &|b| Cert::decode(b).is_ok()))));
+    checks.push(("serde Crl".into(), Box::new(|| serde_route(&crl, crl.to_captured().as_slice(), &|x: &Crl| x.to_captured().as_slice().to_vec(), &|b| Crl::decode(b).is_ok()))));
+    checks.push(("serde Manifest".into(), Box::new(|| serde_route(&mft, mft.to_captured().as_slice(), &|x: &Manifest| x.to_captured().as_slice().to_vec(), &|b| Manifest::decode(b, true).is_ok()))));
+    checks.push(("serde Roa".into(), Box::new(|| serde_route(&roa, roa.to_captured().as_slice(), &|x: &Roa| x.to_captured().as_slice().to_vec(), &|b| Roa::decode(b, true).is_ok()))));
+    checks.push(("serde Aspa".into(), Box::new(|| serde_route(&aspa, aspa.to_captured().as_slice(), &|x: &Aspa| x.to_captured().as_slice().to_vec(), &|b| Aspa::decode(b, true).is_ok()))));
+    checks.push(("serde IdCert".into(), Box::new(|| serde_route(&idc, idc.to_captured().as_slice(), &|x: &IdCert| x.to_captured().as_slice().to_vec(), &|b| IdCert::decode(b).is_ok()))));
+    checks.push(("serde RpkiCaCsr".into(), Box::new(|| serde_route(&csr, csr_bytes.as_slice(), &|x: &RpkiCaCsr| x.to_captured().as_slice().to_vec(), &|b| RpkiCaCsr::decode(b).is_ok()))));
+    // ---- ownership of inputs
+    for mode in 0..4usize {
+        let mode_name = ["views into one larger shared buffer", "from_static", "live clones unshared / dropped after the build", "clones made before, originals dropped before the build"][mode];
+        let signer = &signer; let files = &files; let so = &so;
+        checks.push((format!("ownership certificate URIs: {mode_name}"), Box::new(move || {
+            let spec = CertSpec::base(CKind::Ca);
+            let reference = spec.build(d);
+            let texts = [d.crls[1].as_str().to_string(), d.cers[1].as_str().to_string(), d.dirs[1].as_str().to_string(), d.mfts[1].as_str().to_string()];
+            let big = Bytes::from(format!("<<{}|{}|{}|{}>>", texts[0], texts[1], texts[2], texts[3]));
+            let mut at = 2usize; let mut uris: Vec<uri::Rsync> = vec![];
+            for t in &texts { let u = match mode { 0 => uri::Rsync::from_bytes(big.slice(at..at + t.len())), 1 => uri::Rsync::from_bytes(Bytes::from_static(Box::leak(t.clone().into_boxed_str()).as_bytes())), _ => uri::Rsync::from_string(t.clone()) }.ok()?; at += t.len() + 1; uris.push(u) }
+            let keep: Vec<uri::Rsync> = uris.clone();
+            if mode == 3 { let originals = std::mem::replace(&mut uris, keep.clone()); drop(originals) }
+            let mut t = spec.build(d);
+            t.set_crl_uri(Some(uris[0].clone())); t.set_ca_issuer(Some(uris[1].clone())); t.set_ca_repository(Some(uris[2].clone())); t.set_rpki_manifest(Some(uris[3].clone()));
+            if mode == 2 { for mut u in uris { u.unshare(); u.path_into_dir() } for mut u in keep { u.path_into_dir(); drop(u) } }
+            drop(big);
+            let mut r = CaseResult::default();
+            form_check(&mut r, &cap(reference.encode_ref()), &cap(t.encode_ref()), &obs_tbs(&reference), &obs_tbs(&t));
+            let built = t.into_cert(&d.signer, &Kid(0)).ok()?;
+            twin(&mut r, &built, |c| c.to_captured().as_slice().to_vec(), |b| Cert::decode(b).map_err(|e| e.to_string()), obs_cert);
+            r.fails.first().map(|(o, x)| format!("{o}: {x}"))
+        })));
+        checks.push((format!("ownership manifest entries, eContent and message payload: {mode_name}"), Box::new(move || {
+            let names: Vec<&(Vec<u8>, Vec<u8>)> = [0usize, 3, 5].iter().map(|&i| &files[i]).collect();
+            let mut all = vec![]; for (n, h) in &names { all.extend_from_slice(n); all.extend_from_slice(h) }
+            let big = Bytes::from(all);
+            let mut at = 0usize; let mut items: Vec<FileAndHash<Bytes, Bytes>> = vec![];
+            for (n, h) in &names { let (a, b) = match mode { 0 => (big.slice(at..at + n.len()), big.slice(at + n.len()..at + n.len() + h.len())),
+                    1 => (Bytes::from_static(Box::leak(n.clone().into_boxed_slice())), Bytes::from_static(Box::leak(h.clone().into_boxed_slice()))), _ => (Bytes::from(n.to_vec()), Bytes::from(h.to_vec())) };
+                at += n.len() + h.len(); items.push(FileAndHash::new(a, b)) }
+            let keep = items.clone();
+            if mode == 3 { let o = std::mem::replace(&mut items, keep.clone()); drop(o) }
+            let reference = ManifestContent::new(d.serials[3].1, d.instants[1], d.instants[3], DigestAlgorithm::sha256(), names.iter().map(|(n, h)| FileAndHash::new(n.clone(), h.clone()))).into_manifest(so.builder(d), signer, &Kid(0)).ok()?;
+            let built = ManifestContent::new(d.serials[3].1, d.instants[1], d.instants[3], DigestAlgorithm::sha256(), items.iter()).into_manifest(so.builder(d), signer, &Kid(0)).ok()?;
+            drop(items); drop(keep); drop(big);
+            let mut r = CaseResult::default();
+            form_check(&mut r, reference.to_captured().as_slice(), built.to_captured().as_slice(), &obs_manifest(&reference, &d.dirs[1]), &obs_manifest(&built, &d.dirs[1]));
+            twin(&mut r, &built, |m| m.to_captured().as_slice().to_vec(), |b| Manifest::decode(b, true).map_err(|e| e.to_string()), |m| obs_manifest(m, &d.dirs[1]));
+            // eContent of a bare signed object and the payload of a signed message
+            let payload = der::seq(&[der::octets(&[0x5a; 40])]);
+            let bigp = Bytes::from([b"<<<".to_vec(), payload.clone(), b">>>".to_vec()].concat());
+            let view = match mode { 0 => bigp.slice(3..3 + payload.len()), 1 => Bytes::from_static(Box::leak(payload.clone().into_boxed_slice())), _ => Bytes::from(payload.clone()) };
+            let ct = || Oid(Bytes::copy_from_slice(&der::oid(&[1, 2, 840, 113549, 1, 9, 16, 1, 35])[2..]));
+            let mut b1 = so.builder(d); b1.set_as_resources_inherit(); let mut b2 = so.builder(d); b2.set_as_resources_inherit();
+            let o1 = b1.finalize(ct(), Bytes::from(payload.clone()), signer, &Kid(0)).ok()?; let o2 = b2.finalize(ct(), view.clone(), signer, &Kid(0)).ok()?;
+            drop(bigp);
+            form_check(&mut r, &cap(o1.encode_ref()), &cap(o2.encode_ref()), &obs_sigobj(&o1), &obs_sigobj(&o2));
+            let m = SignedMessage::create(view.clone(), d.validity((1, 3)), &Kid(0), signer).ok()?; drop(view);
+            let mt = SignedMessage::decode(m.to_captured().as_slice(), true).ok()?;
+            if mt.content().to_bytes().as_ref() != payload.as_slice() || m.content().to_bytes().as_ref() != payload.as_slice() { r.fail("form_independent", "the message payload is not the one handed in") }
+            r.fails.first().map(|(o, x)| format!("{o}: {x}"))
+        })));
+    }
+    checks.push(("ownership resource chains sharing storage with a clone that is intersected".into(), Box::new(|| {
+        let v4: IpBlocks = pki::ip_blocks(32, &[v4_atoms()[0], v4_atoms()[2], v4_atoms()[3]]); let asb: AsBlocks = pki::as_blocks(&[as_atoms()[0], as_atoms()[2], as_atoms()[3]]);
+        let before = (r_ipblocks(&v4, true), r_asblocks(&asb));
+        let mut t = CertSpec::base(CKind::Ca).build(d); t.set_v4_resources(IpResources::blocks(v4.clone())); t.set_as_resources(AsResources::blocks(asb.clone()));
+        let reference = cap(t.encode_ref());
+        let (mut c4, mut ca) = (v4.clone(), asb.clone());
+        c4.intersection_assign(&pki::ip_blocks(32, &[v4_atoms()[2]])); ca.intersection_assign(&pki::as_blocks(&[as_atoms()[3]]));
+        if (r_ipblocks(&v4, true), r_asblocks(&asb)) != before { return Some("intersecting a clone changed the original chain".into()) }
+        if cap(t.encode_ref()) != reference { return Some("intersecting a clone changed the certificate the chain was put into".into()) }
+        if r_ipblocks(&c4, true) != r_ipblocks(&v4.intersection(&pki::ip_blocks(32, &[v4_atoms()[2]])), true) || r_asblocks(&ca) != r_asblocks(&asb.intersection(&pki::as_blocks(&[as_atoms()[3]]))) { return Some("intersection_assign on a shared chain differs from intersection".into()) }
+        None
+    })));
+    let results: Vec<Option<String>> = checks.par_iter().map(|(_, f)| match guard(|| f()) { Ok(x) => x, Err(p) => Some(format!("PANIC {p}")) }).collect();
+    for ((name, _), res) in checks.iter().zip(results.iter()) {
+        sp.eval(); sp.nontrivial(1); sp.outcome(name.split(' ').next().unwrap_or("check"));
+        if let Some(x) = res { ctx.fail(&format!("C05.usage.{}", name.split(' ').next().unwrap_or("check")), name.clone(), x.clone()) }
+    }
+    sp.sample_str(|| checks[0].0.clone());
+    sp.done(true, &format!("{} checks", checks.len()));
+}
+
 fn main() {
+    if std::env::var("C05_CHILD").as_deref() == Ok("subjects") {
+        // child of the environment space: print the subjects' observations (hashed) and leave
+        rpki_verif::engine::report::install_quiet_panic_hook();
+        let d = Dom::new();
+        for i in 0..N_SUBJECTS { println!("SUBJECT {:016x}", fnv(subject(&d, i).as_bytes())) }
+        return
+    }
     let ctx = Ctx::new("C05", "exploration");
     ctx.assume("aws-lc RSA/ECDSA and SHA-256 are correct; keys come from the fixed pool in /verif/keys");
     ctx.assume("Roa::process / Aspa::process have no _at variant: they are called only for validity windows that contain the wall clock (1950-01-01 .. 2049-12-31); every object is additionally validated at both window ends through SignedObject::validate_at");
@@ -2886,5 +3548,8 @@ fn main() {
     if want("made") { space_made_inputs(&ctx, &d) }
     if want("reissue") { space_reissue(&ctx, &d) }
     if want("scale") { space_scale(&ctx, &d) }
+    if want("chains") { space_chains(&ctx, &d) }
+    if want("history") { space_history(&ctx, &d) }
+    if want("usage") { space_usage(&ctx, &d) }
     ctx.finish();
 }
